@@ -101,6 +101,7 @@ fn main() {
                 "c08_exec" => ("C08", c08::part_exec(tier)),
                 "c08_poison" => ("C08", c08::part_poison(tier)),
                 "c08_dap" => ("C08", c08::part_dap_args(tier)),
+                "c16_sweep" => ("C16", c16::part_sweep(tier)),
                 "c16_vard" => ("C16", c06s::part_vard(tier)),
                 "c18_shlib" => ("C18", c18s::part_shlib(tier)),
                 "c17_names" => ("C17", c17e::part_names(tier)),
